@@ -10,6 +10,7 @@ encoders).  Only property theorems live here; helper lemmas are in `Lemmas/Filte
 import PdfVerif.Lemmas.FiltersPred
 import PdfVerif.Lemmas.FiltersCodec
 import PdfVerif.Lemmas.FiltersChain
+import PdfVerif.Lemmas.FiltersA85
 
 namespace PdfVerif.Props.C03
 open PdfVerif PdfVerif.Filters PdfVerif.FilterEnc PdfVerif.Gen.Filters
@@ -137,6 +138,16 @@ theorem ahx_rt (cs : List Nat) (tail : Nat) (x : Bytes) : asciihexdecode (ahxEnc
       exact unhexlify_digits cs x
 
 example : asciihexdecode (ahxEnc [5, 30, 2] 2 [0xAB, 0x00, 0xF0]) = .ok [0xAB, 0x00, 0xF0] := by decide
+
+/-! ## ASCII85 -/
+
+/-- `base64.a85decode` (as called by `ascii85decode`) inverts the group encoder for every byte
+string: full groups as five digits or `z` for zero groups, a final group of n < 4 bytes as n+1
+digits, any white space between groups. -/
+theorem a85_body_rt (cs : List Nat) (x : Bytes) : a85decode (a85Body cs x) = .ok x :=
+  a85decode_body cs x
+
+example : a85decode (a85Body [1, 5] [0, 0, 0, 0, 0xff, 0xfe]) = .ok [0, 0, 0, 0, 0xff, 0xfe] := by decide
 
 /-! ## Filter chains
 
